@@ -62,18 +62,23 @@ type pstr struct {
 }
 
 type memspec struct {
-	B   string `json:"b"`
-	Gap bool   `json:"gap"`
+	B    string `json:"b"`
+	Gap  bool   `json:"gap"`
+	Prot string `json:"prot"` // protection of the page holding the NUL: rw, w, none
 }
 
 func (m memspec) token() string {
-	if m.B == "" {
-		return "static:0"
+	b, g, p := m.B, "0", m.Prot
+	if b == "" {
+		b = "static"
 	}
 	if m.Gap {
-		return m.B + ":1"
+		g = "1"
 	}
-	return m.B + ":0"
+	if p == "" {
+		p = "rw"
+	}
+	return b + ":" + g + ":" + p
 }
 
 type dkind struct {
